@@ -92,7 +92,10 @@ BlankIdx(obs) == IF obs.def.tag = "variant"
 (* derive must reject: an unknown item, a repeated bounds / skip_type_params*)
 (* / capture_docs / crate, an invalid capture_docs value, and a bounds(..)  *)
 (* that leaves a non-skipped type parameter unbound.  replace_segment may   *)
-(* repeat.  item = [k |-> kind, ...].                                       *)
+(* repeat.  item = [k |-> kind, ...].  A bounds item lists in `ps` the       *)
+(* parameters it bounds DIRECTLY (`T: ..`); predicates on other types that  *)
+(* merely mention a parameter (`T::A: ..`, `<T as Cfg>::A: ..`,             *)
+(* `Vec<T>: ..`; field `other`) bind nothing.                               *)
 (***************************************************************************)
 Singletons == {"bounds", "skip_type_params", "capture_docs", "crate"}
 RECURSIVE CountKind(_, _)
